@@ -28,8 +28,8 @@ ASSUMPTIONS = [
 
 def config(tier):
     if tier == 'quick':
-        return dict(shards=8, examples=220, numba_threads=4, soft_s=170, shrink_calls=80)
-    return dict(shards=16, examples=3500, numba_threads=4, soft_s=1300, shrink_calls=250)
+        return dict(shards=8, examples=220, numba_threads=16, soft_s=170, shrink_calls=80)
+    return dict(shards=16, examples=3500, numba_threads=16, soft_s=1300, shrink_calls=250)
 
 
 AX_KINDS = ['uniform', 'uniform', 'centre', 'edge', 'edge', 'zero', 'Lminus', 'L', 'out']
@@ -59,7 +59,7 @@ def _desc(draw, tier):
     n = draw(st.one_of(st.integers(0, 12), st.integers(0, 120)))
     ax = st.tuples(st.sampled_from(AX_KINDS), st.integers(0, 40), st.integers(-2, 2), st.floats(0, 1, exclude_max=True))
     pts = draw(st.lists(st.tuples(ax, ax, ax, st.integers(-8, 8)), min_size=n, max_size=n))
-    nthread = draw(st.sampled_from([1, 1, 2, 3, 4]))
+    nthread = draw(st.sampled_from([1, 1, 2, 3, 4, 5, 7, 11, 13, 14, 16, -1]))  # -1 = all threads (16 in the workers)
     npart = draw(st.sampled_from([None, None, 1, 2, 3, 5]))  # odd values are accepted with one thread only
     if npart in (3, 5) and draw(st.booleans()):
         nthread = 1
@@ -178,9 +178,11 @@ def _wrap_ref(pos, box):
     return p
 
 
-def _deposit(d, pos, w, grid, nthread=None, npartition='desc'):
-    """run the code under test; returns the grid (deposits accumulate into `grid`)"""
+def _deposit(d, pos, w, grid, nthread=None, npartition='desc', same_array=False):
+    """run the code under test; returns the offset used (deposits accumulate into `grid`). The code gets a private copy of the
+    positions unless same_array (then it gets `pos` itself: used to deposit an array a second time, as left by the first call)"""
     box = d['box']
+    arg = pos if same_array else pos.copy()
     if d['kind'] == 'tsc':
         import abacusnbody.analysis.tsc as tsc
 
@@ -192,13 +194,13 @@ def _deposit(d, pos, w, grid, nthread=None, npartition='desc'):
             offset = float(d['offfrac'] * box / max(d['shape']))
         with warnings.catch_warnings():
             warnings.simplefilter('ignore')
-            call_repo(tsc.tsc_parallel, pos.copy(), grid, box, weights=None if w is None else w.copy(), nthread=d['nthread'] if nthread is None else nthread,
+            call_repo(tsc.tsc_parallel, arg, grid, box, weights=None if w is None else w.copy(), nthread=d['nthread'] if nthread is None else nthread,
                       wrap=d['wrap'], npartition=(d['npartition'] if npartition == 'desc' else npartition), sort=d['sort'], coord=d['coord'], offset=offset)
         return offset
     else:
         from abacusnbody.analysis.cic import cic_serial
 
-        call_repo(cic_serial, pos.copy(), grid, box, weights=None if w is None else w.copy())
+        call_repo(cic_serial, arg, grid, box, weights=None if w is None else w.copy())
         return 0.0
 
 
@@ -222,7 +224,7 @@ def run_case(d):
         offset = _deposit(d, pos, w, grid)
     except Violation as v:
         # an explicit npartition > 2 with several threads may be refused (odd, or stripes narrower than 4 cells): C07 judges that rule
-        if v.signature.startswith('raised:ValueError') and d['kind'] == 'tsc' and d['nthread'] > 1 and d['npartition'] not in (None, 1, 2):
+        if v.signature.startswith('raised:ValueError') and d['kind'] == 'tsc' and d['nthread'] != 1 and d['npartition'] not in (None, 1, 2):
             raise Reject('configuration rejected by tsc_parallel')
         raise
     pref = _wrap_ref(pos, box) if (d['kind'] == 'tsc' and d['wrap']) else pos.astype(np.float64)
@@ -231,13 +233,24 @@ def run_case(d):
     err = float(np.abs(grid.astype(np.float64) - ref).max()) if grid.size else 0.0
     cls = sorted(flags)
     if not (err <= tol):
-        if d['kind'] == 'tsc' and d['nthread'] > 1:
+        if d['kind'] == 'tsc' and d['nthread'] != 1:
             g1 = np.zeros(shape, dtype=gdt)
             _deposit(d, pos, w, g1, nthread=1, npartition=None)
             if float(np.abs(g1.astype(np.float64) - ref).max()) <= tol:
                 raise Violation('tsc-concurrent-stripes', 'multi-threaded deposit differs from the reference by %g (tolerance %g) but the single-threaded deposit matches: lost/doubled update between concurrent stripes' % (err, tol))
         i = np.unravel_index(int(np.argmax(np.abs(grid.astype(np.float64) - ref))), shape)
         raise Violation('%s-kernel-mismatch' % d['kind'], 'cell %s: got %r, separable-kernel reference %r (|diff| %g > tol %g); shape=%s box=%r offset=%r n=%d' % (tuple(map(int, i)), float(grid[i]), float(ref[i]), err, tol, shape, box, offset, n))
+    if n >= 1:
+        # history: the same array deposited twice (the interlaced estimator does exactly that, with two different offsets). Whatever
+        # the first call leaves in the caller's array (TSC wraps it in place), a second deposit of it is the same deposit.
+        parr = pos.copy()
+        ga = np.zeros(shape, dtype=gdt)
+        _deposit(d, parr, w, ga, same_array=True)
+        gb = np.zeros(shape, dtype=gdt)
+        _deposit(d, parr, w, gb, same_array=True)
+        errb = float(np.abs(gb.astype(np.float64) - ref).max()) if gb.size else 0.0
+        if not (errb <= tol):
+            raise Violation('%s-second-deposit-of-same-array-differs' % d['kind'], 'depositing the array a second time (as the first call left it) differs from the reference by %g (tol %g); first deposit of it: %g; offset=%r' % (errb, tol, float(np.abs(ga.astype(np.float64) - ref).max()), offset))
     # conservation
     sw = float(np.sum(w.astype(np.float64))) if w is not None else float(n)
     tot = float(grid.sum(dtype=np.float64))
@@ -294,7 +307,7 @@ def run_case(d):
             dd = float(d['shift'][1] % 2) * 0.5 * box / shape[0]
         with warnings.catch_warnings():
             warnings.simplefilter('ignore')
-            f = call_repo(ps.get_field, pin, box, shape[0], d['kind'].upper(), w=None if w is None else w.copy(), d=dd, nthread=d['nthread'])
+            f = call_repo(ps.get_field, pin, box, shape[0], d['kind'].upper(), w=None if w is None else w.copy(), d=dd, nthread=(16 if d['nthread'] < 0 else d['nthread']))  # get_field documents a thread count, not the -1 spelling
         pr = _wrap_ref(pos, box) if d['kind'] == 'tsc' else pos.astype(np.float64)
         rf = MA.reference(pr, shape, box, weights=w, offset=dd, kind=d['kind'])
         want = rf * (rf.size / float(n)) - 1.0
